@@ -308,6 +308,17 @@ def write_replay(pid, seed, k, payload):
     return p
 
 
+def _revive_args(args):
+    """Value descriptors ("t"/"v" dictionaries) and schema-value descriptors stay plain; tagged JSON becomes Obj/Num."""
+    out = {}
+    for k, v in args.items():
+        if k in ("schema", "schema2", "doc", "insts", "docs"):
+            out[k] = wire.revive(v)
+        else:
+            out[k] = v
+    return out
+
+
 def _strip_meta(o):
     return {"id": o["id"], "op": o["op"], "args": o["args"]}
 
@@ -378,6 +389,7 @@ def _run(pid, mod, tier, seed, replay, n_override, scratch, t0, violations, know
         for fn in sorted(os.listdir(corpus_dir)):
             if fn.endswith(".json"):
                 o = json.load(open(os.path.join(corpus_dir, fn)))
+                o["args"] = _revive_args(o["args"])
                 o.setdefault("meta", {})["src"] = "corpus:" + fn
                 ops.append(o)
     if replay:
@@ -470,6 +482,7 @@ def _run(pid, mod, tier, seed, replay, n_override, scratch, t0, violations, know
         if kf.get("property") != pid:
             continue
         w = dict(kf["witness"])
+        w["args"] = _revive_args(w["args"])
         w["id"] = 0
         g = eval_ops([w], vh, "go", env=GOENV).get(0, {}).get("go")
         m = eval_ops([w], drv, "model").get(0, {}) if drv else {}
